@@ -7,6 +7,7 @@
 // mutex from another thread than the one that locked it by design, which is not what is checked here).  This pass backs the assumption "scheduling points at
 // synchronisation operations suffice"; it is not the deciding step.
 #include <sched.h>
+#include <signal.h>
 #include <sys/wait.h>
 #include <unistd.h>
 
@@ -60,6 +61,7 @@ static int run_once(const Cfg &c, std::string &report) {
   if (pid == 0) {
     close(fd[0]);
     dup2(fd[1], 2);  // TSan reports go to stderr
+    alarm(180);      // a free-running run takes milliseconds; a run that hangs (deadlock) ends with SIGALRM and is reported as such
     if (!freopen("/dev/null", "w", stdout)) {}
     g_frames_in_file = c.F;
     std::vector<std::string> av{"c05_race", "--top", "x.vtop", "--trj", "x.vtrj", "--nt", std::to_string(c.nt), "--first-frame", std::to_string(c.ff)};
@@ -95,6 +97,7 @@ int main(int argc, char **argv) {
       std::string rep;
       int rc = run_once(c, rep);
       if (rep.find("ThreadSanitizer: data race") != std::string::npos) { printf("case FAILS: ThreadSanitizer report\n%s\n", rep.substr(0, 3000).c_str()); return 3; }
+      if (rc != 0 && rc != 66) { printf("case FAILS: free-running run ended with status %d%s\n", rc, rc == 128 + SIGALRM ? " (hang: killed by the 180 s watchdog)" : ""); return 3; }
     }
     printf("case holds (%d free-running repetitions without a ThreadSanitizer report)\n", 3 * reps);
     return 0;
@@ -121,7 +124,8 @@ int main(int argc, char **argv) {
               std::string first = rep.substr(0, rep.find("\n\n") == std::string::npos ? 600 : std::min<size_t>(rep.find("\n\n"), 900));
               R.fail(std::string(c.ord ? "ordered" : "unordered") + "-data-race", "ThreadSanitizer: " + first, cfgstr(c));
             } else if (rc != 0 && rc != 66) {
-              R.fail(std::string(c.ord ? "ordered" : "unordered") + "-free-running-failure", "exit status " + std::to_string(rc) + " " + rep.substr(0, 300), cfgstr(c));
+              R.fail(std::string(c.ord ? "ordered" : "unordered") + (rc == 128 + SIGALRM ? "-free-running-hang" : "-free-running-failure"),
+                     (rc == 128 + SIGALRM ? std::string("run did not finish within 180 s (deadlock); ") : std::string()) + "exit status " + std::to_string(rc) + " " + rep.substr(0, 300), cfgstr(c));
               reported = true;
             }
           }
